@@ -1,10 +1,6 @@
-"""Per-property configuration of ./check (see DESIGN.md §6)."""
-
-PROPS = {
-    "C20": {
-        "harness": "hx_c20",
-        "partial": [],
-        "trusted": ["fmt.Sprintf %0Nx and strconv.ParseUint are modelled (Model/C20.lean: fmtHex, parse) and compared on every generated case"],
-        "assumptions": ["node ids are built with MakeNodeID from a uint8 service and a uint16 instance"],
-    },
-}
+"""Per-property configuration of ./check: one JSON file per property under conf/."""
+import os, json, glob
+_here = os.path.dirname(os.path.abspath(__file__))
+PROPS = {}
+for _p in sorted(glob.glob(os.path.join(_here, "conf", "C*.json"))):
+    PROPS[os.path.basename(_p)[:-5]] = json.load(open(_p))
